@@ -125,8 +125,10 @@ def execute(case, fault=None):
     orig_bulk = app.database.bulkSave
 
     def bulkSave(data):
+        # statements are numbered across every bulkSave() call of one saveDatabaseOutput(): if a step's rows were written by
+        # more than one call (transaction), a fault in a later one must still leave nothing of the step behind
         state["in_bulk"] = True
-        state["stmt"] = 0
+        state["bulk_calls"] = state.get("bulk_calls", 0) + 1
         try:
             return orig_bulk(data)
         finally:
@@ -137,6 +139,7 @@ def execute(case, fault=None):
 
     def save():
         state["save_index"] += 1
+        state["stmt"] = 0
         cap = {
             "index": state["save_index"], "time": float(app.clock.time), "jd": float(app.clock.julian_date_epoch), "iso": app.clock.datetime_epoch.isoformat(timespec="microseconds"),
             "truth": {int(i): np.array(a.eci_state, dtype=float) for i, a in list(app.target_agents.items()) + list(app.sensor_agents.items())},
@@ -310,6 +313,15 @@ def audit(ctx, case, b, caps, hist, wit, fault=None):
             n_o = cur.execute("select count(*) from tasks where julian_date = ?", (c["jd"],)).fetchone()[0]
             total = n_t + n_e + n_o
             ctx.check(total == 0, "partial-step-committed", f"the bulk save of step t={c['time']}s died at statement {fault[1]} ({hist['fired']}) but {n_t} truth, {n_e} estimate and {n_o} task rows of that step are in the database", wit, mon="atomicity")
+            # every other table that carries the step's Julian date (observations, misses, filter steps, detected manoeuvres ...)
+            left = {}
+            for (tname,) in cur.execute("select name from sqlite_master where type = 'table'").fetchall():
+                cols = [r_[1] for r_ in cur.execute(f"pragma table_info({tname})").fetchall()]  # noqa: S608
+                if "julian_date" in cols and tname not in ("epochs", "truth_ephemerides", "estimate_ephemerides", "tasks"):
+                    cnt = cur.execute(f"select count(*) from {tname} where julian_date = ?", (c["jd"],)).fetchone()[0]  # noqa: S608
+                    if cnt:
+                        left[tname] = cnt
+            ctx.check(not left, "partial-step-committed-other-tables", f"the save of step t={c['time']}s died at statement {fault[1]} ({hist['fired']}) but rows of that step remain in {left}", wit, mon="atomicity")
     con.close()
     return len(committed)
 
@@ -335,9 +347,27 @@ def eval_case(ctx, case):
         sk.teardown(b)
 
 
+def big_catalogue_case(rng):
+    """One save call with more than a thousand objects (agents at construction, truth rows at every output epoch)."""
+    case = gen_case(rng)
+    net = case["net"]
+    t0 = net["targets"][0]
+    net["targets"] = [dict(t0, id=11001 + j, radius=6900.0 + (j % 40) * 60.0, heading=(j * 7.3) % 360.0, off=[(j % 11) - 5.0, (j % 7) - 3.0]) for j in range(rng.choice([1000, 1003, 2001]) - len(net["sensors"]) + rng.choice([-1, 0, 1]))]
+    net["step"] = 60
+    case.update({"out": 60, "plan": [1, 1], "span_steps": 2, "estimation": False, "events": [], "second_engine": False, "big": True})
+    net["save_filter_steps"] = False
+    net["maneuver_detection"] = None
+    return case
+
+
 def run(ctx):
     rng = ctx.pyrng("c09")
     n = ctx.scale(48, 1200)
+    if ctx.shard == 0:
+        case = big_catalogue_case(rng)
+        nout = eval_case(ctx, case)
+        ctx.count("big_catalogue_cases")
+        ctx.case(("big", len(case["net"]["targets"])), nontrivial=nout >= 2, sample={"big_catalogue_targets": len(case["net"]["targets"])})
     for i in range(n):
         if ctx.time_left() < 12:
             break
